@@ -51,7 +51,8 @@ def cval(v) -> str:
     if isinstance(v, (float, np.floating)) and math.isnan(float(v)):
         return "VNaN"
     f = float(v)
-    assert f == int(f), v
+    if math.isinf(f) or f != int(f):
+        return "(VNum (-999999937)%Z)"   # not a value the model can produce: shows up as a disagreement
     return f"(VNum {cz(int(f))})"
 
 
@@ -886,7 +887,7 @@ def run(out, tier, scratch):
         judge("disjoint", rand_cross_crs(rng, disjoint=True), f"cross-crs disjoint {i}")
     # a model/code disagreement on a whole run: look at that configuration with the predicates as well
     if fails and not found:
-        for i in fails[:30]:
+        for i in fails[:8]:
             if metas[i] is not None:
                 judge("direct", metas[i][0], "disagreeing case")
                 judge("complete-deps", metas[i][0], "disagreeing case")
